@@ -2246,7 +2246,7 @@ func (w *Writer) scanStorageTextureHelpers() {
 				continue
 			}
 			// Resolve the image expression to find its type
-			imgType := w.resolveImageType(fn, imgLoad.Image)
+			imgType := w.resolveImageTypeFromFn(fn, imgLoad.Image)
 			if imgType == nil {
 				continue
 			}
@@ -2259,30 +2259,6 @@ func (w *Writer) scanStorageTextureHelpers() {
 			}
 		}
 	}
-}
-
-// resolveImageType resolves the ImageType for an expression handle in a function.
-func (w *Writer) resolveImageType(fn *ir.Function, handle ir.ExpressionHandle) *ir.ImageType {
-	if int(handle) >= len(fn.Expressions) {
-		return nil
-	}
-	expr := fn.Expressions[handle]
-	gv, ok := expr.Kind.(ir.ExprGlobalVariable)
-	if !ok {
-		return nil
-	}
-	if int(gv.Variable) >= len(w.module.GlobalVariables) {
-		return nil
-	}
-	tyHandle := w.module.GlobalVariables[gv.Variable].Type
-	if int(tyHandle) >= len(w.module.Types) {
-		return nil
-	}
-	img, ok := w.module.Types[tyHandle].Inner.(ir.ImageType)
-	if !ok {
-		return nil
-	}
-	return &img
 }
 
 // storageFormatScalarName returns the HLSL scalar type name for scalar storage formats.
